@@ -473,6 +473,7 @@ Init == /\ \/ InitMode \in {"empty", "random"} /\ base = EmptyRoot /\ store = [b
            \/ /\ InitMode = "triples" /\ base \in ValidRootsOf(Acts)
               /\ \E l \in ValidRootsOf(Acts), r \in ValidRootsOf(Acts) :
                     /\ (base.c.nn => l.c.nn /\ r.c.nn)
+                    /\ (Sim => l # base /\ r # base /\ ~MergeRoots(l, r, base).conf /\ ~MergeRoots(l, r, base).unsup)   \* generator: merges that get through
                     /\ store = [b \in Branches |-> IF b = "main" THEN BranchAt(l, l # base) ELSE BranchAt(r, r # base)]
         /\ sess = [s \in Sessions |-> [br |-> "main", open |-> FALSE, fkc |-> TRUE, force |-> FALSE, dirty |-> FALSE, snap |-> EmptyRoot, snaph |-> EmptyRoot, mine |-> EmptyRoot]]
         /\ ops = IF InitMode = "random" THEN -1 ELSE 0
@@ -511,7 +512,10 @@ MkRoot(pr, cr, nn) == [p |-> [rows |-> pr, art |-> {}], c |-> [rows |-> cr, art 
 RandomSetup ==
     /\ InitMode = "random" /\ ops = -1
     /\ \E bpf \in {RE([PKeys -> PVals])}, lpf \in {RE([PKeys -> PVals])}, rpf \in {RE([PKeys -> PVals])} :
-       \E bcf \in {RE([CKeys -> {NoC} \cup CRows])}, lcf \in {RE([CKeys -> {NoC} \cup CRows])}, rcf \in {RE([CKeys -> {NoC} \cup CRows])} :
+       \E bcr \in {RE([CKeys -> CRows])}, lcr \in {RE([CKeys -> CRows])}, rcr \in {RE([CKeys -> CRows])} :
+       \E bcq \in {RE([CKeys -> 1..3])}, lcq \in {RE([CKeys -> 1..3])}, rcq \in {RE([CKeys -> 1..3])} :       \* a third of the drawn child rows are "no row"
+       \E bcf \in {[k \in CKeys |-> IF bcq[k] = 1 THEN NoC ELSE bcr[k]]}, lcf \in {[k \in CKeys |-> IF lcq[k] = 1 THEN NoC ELSE lcr[k]]},
+          rcf \in {[k \in CKeys |-> IF rcq[k] = 1 THEN NoC ELSE rcr[k]]} :
        \E lpm \in {RE([PKeys -> 1..3])}, rpm \in {RE([PKeys -> 1..3])}, lcm \in {RE([CKeys -> 1..3])}, rcm \in {RE([CKeys -> 1..3])} :
        \E lcol \in {RE([CKeys -> Cols])}, rcol \in {RE([CKeys -> Cols])} :
        \E lnn \in {"AlterNN" \in Acts /\ RE(1..3) = 1}, rnn \in {"AlterNN" \in Acts /\ RE(1..3) = 1} :
